@@ -1,7 +1,7 @@
 """Single source for MANIFEST.json (bin/mkmanifest)."""
 
 HOOK_COMMITS = ["673019b", "625d9ba", "1d37b76", "2f6eef4", "9ec354b"]
-FIX_COMMITS = ["12c9092", "3e9b6da", "a55c868", "5489af8", "06cfd24", "dc51f1b", "72a27af", "81e61a6"]   # filled by bin/mkmanifest callers: /repo commits that add guarded hooks
+FIX_COMMITS = ["12c9092", "3e9b6da", "a55c868", "5489af8", "06cfd24", "dc51f1b", "72a27af", "81e61a6", "9f27a11"]   # filled by bin/mkmanifest callers: /repo commits that add guarded hooks
 
 NOTES = ("All checks: bin/check <id>. Exit 0 = held, 1 = VIOLATION line + replay file, 2 = tool error (never a verdict). "
          "Specs under spec/<family>/, harness under harness/ (path deps on /repo; rebuilt by every check). "
@@ -152,6 +152,10 @@ CHECKS["C28"] = dict(engine="tlc+vh", level="model_checking", ref="4.16", techni
 CHECKS["C29"] = dict(engine="tlc+vh", level="model_checking", ref="4.16", technique="TLA+ spec (Rbac.tla): endpoint/role table and credential/configuration semantics; TLC enumerates the full finite matrix (and checks the table's monotonicity); every cell executed against the real cluster routes via warp::test with a state digest before/after; 2048 blind wrong keys",
                      text="Exhaustive finite matrix: each of 702 (configuration, credential, endpoint) cells must be served exactly when the reference grants the role, rejected requests must leave workers, groups, connectors and migrations unchanged; near-miss keys (transposition, compensating bit flips) and 2048 arbitrary wrong keys must be rejected.",
                      note="Trusted: warp::test and the public handle_rejection the server installs. Bounded: 26 cluster endpoints of the default build; Raft RPC routes need the raft feature and are covered with C35-C38's harness when built.")
+
+CHECKS["C23"] = dict(engine="tlc+vh", level="exploration", ref="4.12", technique="TLA+ spec (Reload.tla): reload as a function on abstract engine state (unchanged streams keep state, changed streams become fresh); TLC generates (edit class, event stream, reload position) cases over 21 edit classes; each replayed on the real Engine::reload and compared with a never-reloaded twin (identity / untouched streams) or a fresh engine of the new program on the suffix (changed streams)",
+                     text="Differential against real engines: for identity reloads and for streams an edit does not touch, the outputs after the reload point equal those of an engine that was never reloaded; for changed or renamed streams they equal those of a freshly loaded engine of the new program fed only the later events. Covers count/sliding/tumbling/partitioned windows, filters, sequences, Kleene, joins, merges, derived streams; threshold, window size, emit, added/removed operations, added sequence steps, merge inputs, renames.",
+                     note="Trusted: the two oracle engines (the property is an equivalence of executions). Bounded: 21 hand-written edit classes, streams of 8 (thorough 11) events over 3 types, one reload per run.")
 
 NOT_APPLICABLE = {
     "C41": "parser totality over arbitrary strings: no state/transition system to specify; a TLA+ model would only enumerate token strings (fuzzing under another name)",
